@@ -293,6 +293,9 @@ func runC02(r *run) {
 		rounds = 6000
 	}
 	c02Body(r, rounds, false)
+	// destinations handed from logger to logger as lists (GetWriter / GetWriterBy → SetWriter …), then Add / Remove on
+	// either side: every logger still delivers each record exactly once to each of its own destinations
+	c10WriterIsolation(r, &rng{s: r.seed*7907 + 2})
 	// the same delivery oracles in go-test mode (the error dump after a record is active only there):
 	// the twin binary harness.test, oracle-only
 	if exe := os.Getenv("VERIF_HARNESS"); exe != "" {
